@@ -180,6 +180,21 @@ func (u *Unit) enterLoopHead(st *State, fr *Frame, head *ssa.BasicBlock, li *loo
 		for _, it := range u.loopInvariants(st, fr, head, ord) {
 			u.oblige(st, "inv-step"+tag, it.label, it.term, head.Instrs[0].Pos(), "loop invariant preserved: "+it.src, it.props, it.where)
 		}
+		if fr.contract != nil && fr.contract.Loops[ord] != nil {
+			env := u.loopEnv(st, fr, head)
+			for i, c := range fr.contract.Loops[ord].Steps {
+				t, err := u.evalBool(st, env, c.Expr)
+				if err != nil {
+					u.fail(fmt.Sprintf("%s: loop %d step %q: %v", c.Where, ord, c.Src, err))
+					continue
+				}
+				label := c.Label
+				if label == "" {
+					label = fmt.Sprintf("%d", i+1)
+				}
+				u.oblige(st, "loop-step"+tag, label, t, head.Instrs[0].Pos(), "when the loop goes round again: "+c.Src, c.Props, c.Where)
+			}
+		}
 		if ls.hasVar {
 			spec := fr.contract.Loops[ord]
 			env := u.loopEnv(st, fr, head)
